@@ -9,6 +9,7 @@ require (
 )
 
 require (
+	github.com/disintegration/imaging v1.6.2 // indirect
 	github.com/google/pprof v0.0.0-20250820193118-f64d9cf942d6 // indirect
 	github.com/gorilla/mux v1.8.1 // indirect
 	github.com/mattn/go-sqlite3 v1.14.32 // indirect
@@ -20,7 +21,9 @@ require (
 	github.com/tklauser/go-sysconf v0.3.15 // indirect
 	github.com/tklauser/numcpus v0.10.0 // indirect
 	go.uber.org/mock v0.6.0 // indirect
+	golang.org/x/image v0.24.0 // indirect
 	golang.org/x/sys v0.35.0 // indirect
+	gonum.org/v1/gonum v0.15.1 // indirect
 )
 
 replace github.com/sarchlab/mgpusim/v4 => /repo
